@@ -310,7 +310,10 @@ func SelfTest() error {
 	if got := fmt.Sprintf("%x", Hi(sha512.New, []byte("password"), []byte("salt"), 1)); got != "867f70cf1ade02cff3752599a3a53dc4af34c7a669815ae5d513554e1c8cf252c02d470a285a0501bad999bfe943c08f050235d7d68b1da55e63f73b60a57fce" {
 		return fmt.Errorf("Hi/PBKDF2-HMAC-SHA512 c=1: %s", got)
 	}
-	for _, c := range []struct{ in, out string; ok bool }{
+	for _, c := range []struct {
+		in, out string
+		ok      bool
+	}{
 		{"a=2Cb=3Dc", "a,b=c", true}, {"plain", "plain", true}, {"a=2", "", false}, {"a=", "", false},
 		{"a=2c", "", false}, {"a,b", "", false}, {"=3D=3D", "==", true},
 	} {
